@@ -58,3 +58,7 @@ _EVO_NOTE = ("Trusted: scipy expm / DOP853; the harness's dense RK/Taylor steppe
 LEVEL_TEXT["C09"] = "Seeded evolution histories on generated models: every scheme (Taylor P&C orders 2-6, TD-RK4, all ten RK tableaux incl. embedded adaptive pairs, TDVP-PS/PS2 with three local solvers, VMF/MU-VMF, CMF first/second order/trapezoid, force_ovlp, adaptive flags), real time of both signs, time-dependent Hamiltonian callbacks (sample times checked against tableau nodes), carried configs, states of any gauge/complex/prefactor/density-operator form; each call judged against the dense propagator applied to the state before the call (two layers), plus pairwise oracles (solver A vs B, adaptive vs fixed, t vs t/2+t/2, halving order test), one-site PS norm/energy conservation at any bond dimension, bond limits."
 LEVEL_NOTE["C09"] = _EVO_NOTE
 TECHNIQUE["C09"] = "deterministic simulation of evolution call histories with per-call dense-propagator oracle, SimClock callback and ODE-budget seam"
+
+LEVEL_TEXT["C10"] = "As C09 in imaginary time: evolve(-i tau) for states and purified density operators in every scheme that supports it (Taylor P&C, TDVP-PS/PS2, VMF/MU-VMF, CMF), complex and real Hamiltonians, non-zero energy offsets, judged per call against the normalised dense exp(-tau H) applied to the state before the call; thermal-propagation jobs (ThermalProp stepped by the simulator) against dense Gibbs averages; closed-form vibrational propagator and evolve_exact (with offsets) against dense matrix exponentials."
+LEVEL_NOTE["C10"] = _EVO_NOTE
+TECHNIQUE["C10"] = "deterministic simulation of imaginary-time / thermal job histories with per-call dense-propagator and Gibbs oracles"
